@@ -367,6 +367,11 @@ def run_shard(desc) -> Acc:
                     extended_timeout=kind in ("uni_et", "uni_sr_et"),
                     source_route=[zt.NWK(0x2222), zt.NWK(0x3333)] if kind in ("uni_sr", "uni_sr_et") else None,
                     tx_options=zt.TransmitOptions.ACK, radius=5, non_member_radius=3)
+                # what the caller may legally put into a packet besides addresses and payload: a priority of any level
+                pr_ = (run_no * 3 + i * 7) % 6
+                if pr_ < 4 and hasattr(zt, "PacketPriority"):
+                    pkt = pkt.replace(priority=sorted(zt.PacketPriority, key=int)[pr_])
+                    acc.hit("packet_priority_%d" % int(pkt.priority))
 
                 async def one(r=r, pkt=pkt):
                     try:
